@@ -440,7 +440,7 @@ class Reader:
             me = self.push(("abstract", tname))
             self.enclosing.append(me)
             for i in range(n):
-                self.int("peg.bytecode[%d]" % i, role="pegword")
+                self.int("peg.bytecode[%d]" % i, role="pegword", blen=n, nconst=nc)
             for i in range(nc):
                 self.value("peg.constant[%d]" % i)
             self.enclosing.pop()
@@ -541,6 +541,10 @@ def int_candidates(f):
     elif f.kind in ("envref", "defref"):
         c = f.ctx.get("count", 0)
         vals += [0, c - 1, c, c + 1]
+    if f.ctx.get("role") == "pegword":
+        # a word that is used as a rule index or a constant index: exactly at, just below and just above the two limits
+        bl, nc = f.ctx.get("blen", 0), f.ctx.get("nconst", 0)
+        vals += [bl - 1, bl, bl + 1, bl + 2, nc - 1, nc, nc + 1] + list(range(0, 6))
     if f.ctx.get("role") == "flags":
         # every single flag bit toggled, all set, none set
         vals += [clamp32(_s32(f.val ^ (1 << b))) for b in range(32)]
